@@ -1,13 +1,558 @@
-import Isotp.Process
+import Isotp.Proofs.Safe
 /-
-  C05 — receiver is safe on arbitrary bus traffic (property theorems only).
+  C05 — receiver is safe on arbitrary bus traffic (property theorems only; helper lemmas and the
+  invariants `Safe`, `RxJust`, `Quiet` are in Isotp/Proofs/Safe.lean).
+
+  Reading of the property in the model.
+  * "process() never raises": every Python exception site of `_process_rx` / `_process_tx` / `process`
+    is an explicit `State.raise` that sets `exc`; "never raises" = `exc` stays `none`.
+    The frames are whatever is in `inbox` (any identifiers, contents, lengths, delays): the theorems
+    quantify over the whole state, so over every inbox.
+  * "problems are reported only as IsoTpError objects": by typing. The only error events are
+    `Ev.err t e` with `e : Err`, and every constructor of `Err` is a subclass of
+    `isotp.errors.IsoTpError` (`Err.name`); the log theorems below add that the steps only ever put
+    events in front of the log (history is never rewritten) and which kinds of events they put.
+  * "every payload returned by recv() is justified": `recv` pops `rxQueue`; `rxQueue` only grows in
+    `_process_rx`, by at most one payload per frame, and that payload satisfies `JustifiedBy`.
+  * "while the user sends nothing …": `Quiet` (nothing queued, nothing in transmission).
 -/
+set_option linter.unusedVariables false
+
 namespace Isotp.C05
 open Isotp State
+
+/-! ## 1. `process()` never raises -/
 
 /-- `_process_rx` has no exception site: whatever the frame, the exception flag is untouched. -/
 theorem processRx_no_raise (s : State) (m : CanMsg) : (s.processRx m).1.exc = s.exc := by
   unfold processRx startReception
   grind [deliver, stopReceiving, State.error, emit, requestFc, startRxCfTimer]
 
+/-- The initial state of a layer with an accepted configuration satisfies the safety invariant. -/
+theorem safe_init (c : Cfg) (a : Addr) (hc : c.valid = true) : Safe (State.init c a) :=
+  Safe.init c a hc
+
+/-- The address prefix (extended / mixed addressing) is at most one byte, for every `Address`. -/
+theorem prefix_le_one (h : Half) : h.txPrefix.length ≤ 1 ∧ h.rxPrefixSize ≤ 1 :=
+  ⟨Safe.txPrefix_le h, Safe.rxPrefix_le h⟩
+
+/-- Every frame the layer builds (Single / First / Consecutive Frame, Flow Control: 2 … tx_data_length
+    bytes before padding) is accepted by `_make_tx_msg`: padding and DLC lookup cannot raise `ValueError`. -/
+theorem makeTxMsg_never_raises (c : Cfg) (a : Addr) (id : Nat) (d : Bytes) (hc : c.valid = true)
+    (h2 : 2 ≤ d.length) (hle : d.length ≤ c.txDl) :
+    ∃ m, makeTxMsg c a id d = some m ∧ 2 ≤ m.data.length ∧ m.data.length ≤ c.txDl ∧
+      d.length ≤ m.data.length :=
+  Safe.makeTxMsg_ok c a id d hc h2 hle
+
+/-- The bound `2 ≤ length` is needed: a 1-byte data field is refused by `_get_dlc` on classic CAN. -/
+example : makeTxMsg {} ⟨default, default⟩ 0 [0x01] = none := by decide
+
+/-- The safety invariant is kept by `_process_rx` on ANY frame, by the timeout check and by
+    `_process_tx`; none of them reaches an exception site. -/
+theorem safe_steps (s : State) (h : Safe s) :
+    (∀ m, Safe (s.processRx m).1 ∧ (s.processRx m).1.exc = s.exc) ∧
+    (Safe s.checkTimeoutsRx ∧ s.checkTimeoutsRx.exc = s.exc) ∧
+    (Safe s.processTx.1 ∧ s.processTx.1.exc = s.exc) :=
+  ⟨fun m => ⟨h.processRx m, (RxFrame.processRx s m).exc⟩,
+   ⟨h.checkTimeoutsRx, (RxFrame.checkTimeoutsRx s).exc⟩, h.processTx⟩
+
+/-- **`_process_tx` never raises**: from a safe state without pending exception, no
+    `AttributeError` / `AssertionError` / `ValueError` site is reached. -/
+theorem processTx_no_raise (s : State) (h : Safe s) (he : s.exc = none) : s.processTx.1.exc = none :=
+  h.processTx.2.trans he
+
+/-- **`process()` never raises**, whatever is on the bus (`s.inbox` is arbitrary) and whatever the
+    flags; and it leaves the layer in a safe state again. -/
+theorem process_no_raise (s : State) (h : Safe s) (he : s.exc = none) (doRx doTx : Bool) :
+    (s.process doRx doTx).1.exc = none ∧ Safe (s.process doRx doTx).1 :=
+  ⟨h.process_exc he doRx doTx, h.process doRx doTx⟩
+
+/-- The same for the inner loops. -/
+theorem loops_no_raise (s : State) (h : Safe s) (he : s.exc = none) :
+    (∀ doTx st l, (rxLoop doTx s st l).1.exc = none) ∧ (∀ f n, (txLoop f s n).1.exc = none) ∧
+      (∀ f doRx doTx st, (processLoop f doRx doTx s st).1.exc = none) :=
+  ⟨fun doTx st l => (SafeOk.stepInv.rxLoop doTx l s st ⟨h, he⟩).2,
+   fun f n => (SafeOk.stepInv.txLoop f s n ⟨h, he⟩).2,
+   fun f doRx doTx st => (SafeOk.stepInv.processLoop f doRx doTx s st ⟨h, he⟩).2⟩
+
+/-- Receiver on arbitrary traffic, end to end: a layer with an accepted configuration that is fed any
+    list of frames (any id, data, delay) and then runs `process()` has raised nothing. -/
+theorem receiver_never_raises (c : Cfg) (a : Addr) (hc : c.valid = true) (frames : List (Nat × CanMsg))
+    (doRx doTx : Bool) :
+    (({ State.init c a with inbox := frames } : State).process doRx doTx).1.exc = none := by
+  have h : Safe ({ State.init c a with inbox := frames } : State) :=
+    (Safe.init c a hc).congr rfl rfl rfl rfl rfl rfl rfl rfl
+  exact h.process_exc rfl doRx doTx
+
+/-! ## 2. Errors are typed; the log is append-only -/
+
+/-- Remark (`errors_typed`): an error reaches the handler only as `Ev.err t e` with `e : Err`, and each
+    `Err` is an `IsoTpError` subclass — nothing to prove beyond the types. What can be proved is
+    that the steps never rewrite history: they only put events in front of the (newest-first) log,
+    `_process_rx` / the timeout check only errors and deliveries, `_process_tx` only errors, request
+    completions and generator pulls. -/
+theorem log_prepend (s : State) :
+    (∀ m, ∃ evs, (s.processRx m).1.log = evs ++ s.log ∧ ∀ e ∈ evs, e.rxInternal = true) ∧
+    (∃ evs, s.checkTimeoutsRx.log = evs ++ s.log ∧ ∀ e ∈ evs, e.rxInternal = true) ∧
+    (∃ evs, s.processTx.1.log = evs ++ s.log ∧ ∀ e ∈ evs, e.txInternal = true) :=
+  ⟨fun m => LogExt.iff_append.1 (RxFrame.processRx s m).log,
+   LogExt.iff_append.1 (RxFrame.checkTimeoutsRx s).log,
+   LogExt.iff_append.1 (TxFrame.processTx s).log⟩
+
+/-- the event kinds named by `log_prepend` -/
+theorem internal_kinds (e : Ev) :
+    (e.rxInternal = true ↔ (∃ t x, e = .err t x) ∨ ∃ p, e = .deliver p) ∧
+    (e.txInternal = true ↔ (∃ t x, e = .err t x) ∨ (∃ i b, e = .done i b) ∨ ∃ i n, e = .pull i n) := by
+  cases e <;> simp [Ev.rxInternal, Ev.txInternal]
+
+/-! ## 3. Deliveries are justified by the traffic -/
+
+/-- Reference predicate, from the property text: payload `p` is justified by frame `m` arriving in
+    state `s` when `m` is a Single Frame whose data is `p`, or a reception is in progress, `m` is the
+    Consecutive Frame with the expected sequence number, and `p` is the buffered data followed by the
+    data of `m` (clipped to the announced length), of exactly the announced length, which is not above
+    `max_frame_size`. -/
+def JustifiedBy (s : State) (m : CanMsg) (p : Bytes) : Prop :=
+  (∃ l esc cd rd, decode m.data s.addr.rx.rxPrefixSize = some ⟨.sf l p esc, cd, rd⟩) ∨
+  (s.rxState = .waitCf ∧
+    ∃ data cd rd, decode m.data s.addr.rx.rxPrefixSize = some ⟨.cf ((s.lastSeq + 1) % 16) data, cd, rd⟩ ∧
+      p = s.rxBuf ++ data.take (s.rxFrameLen - s.rxBuf.length) ∧
+      p.length = s.rxFrameLen ∧ s.rxFrameLen ≤ s.cfg.maxFrameSize)
+
+/-- The receiver invariant holds initially and is kept by every step (and by `process()`). -/
+theorem rxJust_invariant :
+    (∀ c a, RxJust (State.init c a)) ∧
+    (∀ s, RxJust s → (∀ m, RxJust (s.processRx m).1) ∧ RxJust s.checkTimeoutsRx ∧ RxJust s.processTx.1 ∧
+      (∀ doRx doTx, RxJust (s.process doRx doTx).1)) ∧
+    (∀ s : State, RxJust s.stopReceiving) :=
+  ⟨RxJust.init, fun s h => ⟨h.processRx, h.checkTimeoutsRx, h.of_txFrame (TxFrame.processTx s),
+    fun doRx doTx => RxJust.stepInv.process s doRx doTx h⟩, RxJust.stopReceiving⟩
+
+/-- **Per-frame justification.** One call of `_process_rx` (on ANY frame) puts at most one payload on
+    the rx queue — the queue `recv()` pops — and logs exactly that delivery; if it delivers `p`, then
+    `p` is justified by this frame in the sense of `JustifiedBy`. -/
+theorem delivery_justified (s : State) (h : RxJust s) (m : CanMsg) :
+    NoDelivery s (s.processRx m).1 ∨ ∃ p, Delivered s (s.processRx m).1 p ∧ JustifiedBy s m p := by
+  rcases processRx_deliv s m with h0 | ⟨d, l, p, esc, hd, hp, hdel⟩ | ⟨d, data, hd, hp, hw, hlen, hdel⟩
+  · exact .inl h0
+  · refine .inr ⟨p, hdel, .inl ⟨l, esc, d.canDl, d.rxDl, ?_⟩⟩
+    rw [hd, ← hp]
+  · refine .inr ⟨_, hdel, .inr ⟨hw, data, d.canDl, d.rxDl, ?_, rfl, ?_, (h hw).2⟩⟩
+    · rw [hd, ← hp]
+    · have := (h hw).1
+      simp only [List.length_append, List.length_take] at hlen ⊢
+      omega
+
+/-- Nothing else touches the rx queue: the timeout check and `_process_tx` leave it alone, `recv()`
+    only pops its head. So every payload `recv()` ever returns was put there by a `delivery_justified`
+    step. -/
+theorem rxQueue_other_steps (s : State) :
+    s.checkTimeoutsRx.rxQueue = s.rxQueue ∧ s.processTx.1.rxQueue = s.rxQueue ∧
+    (s.recv.2 = s.rxQueue.head? ∧ s.recv.1.rxQueue = s.rxQueue.tail) := by
+  refine ⟨?_, (TxFrame.processTx s).rxQueue, ?_⟩
+  · unfold checkTimeoutsRx; split <;> rfl
+  · unfold recv; split <;> simp_all
+
+/-- Buffer semantics: while a reception is in progress, a frame either leaves the session untouched
+    (`SessSame`; then it is not a new message: `NotNewMsg`), or ends the session with the buffer emptied (`SessEnd`), or is the expected Consecutive
+    Frame and appends its (clipped) data, or is a First Frame that starts a new session with its own
+    data and an accepted length. Outside a reception, only a First Frame can start one. -/
+theorem buffer_step (s : State) (m : CanMsg) :
+    (s.rxState = .waitCf →
+      (SessSame s (s.processRx m).1 ∧ NotNewMsg s m) ∨ SessEnd (s.processRx m).1 ∨
+      (∃ d data, decode m.data s.addr.rx.rxPrefixSize = some d ∧ d.pdu = .cf ((s.lastSeq + 1) % 16) data ∧
+        (s.processRx m).1.rxState = .waitCf ∧
+        (s.processRx m).1.rxBuf = s.rxBuf ++ data.take (s.rxFrameLen - s.rxBuf.length) ∧
+        (s.processRx m).1.rxFrameLen = s.rxFrameLen ∧ (s.processRx m).1.lastSeq = (s.lastSeq + 1) % 16) ∨
+      (∃ d len data esc, decode m.data s.addr.rx.rxPrefixSize = some d ∧ d.pdu = .ff len data esc ∧
+        (s.processRx m).1.rxState = .waitCf ∧ (s.processRx m).1.rxBuf = data ∧
+        (s.processRx m).1.rxFrameLen = len ∧ (s.processRx m).1.lastSeq = 0 ∧ len ≤ s.cfg.maxFrameSize)) ∧
+    (s.rxState = .idle →
+      (s.processRx m).1.rxState = .idle ∨
+      ∃ d len data esc, decode m.data s.addr.rx.rxPrefixSize = some d ∧ d.pdu = .ff len data esc ∧
+        (s.processRx m).1.rxState = .waitCf ∧ (s.processRx m).1.rxBuf = data ∧
+        (s.processRx m).1.rxFrameLen = len ∧ (s.processRx m).1.lastSeq = 0 ∧ len ≤ s.cfg.maxFrameSize) :=
+  ⟨fun hw => processRx_buf s hw m, fun hi => rxIdle_buf s m hi⟩
+
+/-- The invariant proposed in the task (`rxBuf.length < rxFrameLen` while waiting) is FALSE of the model
+    and of the code: a First Frame whose announced length is not larger than the data it carries is
+    accepted (there is no lower bound on FF_DL in `_process_rx`); the buffer is then already full and
+    the next Consecutive Frame completes the message with none of its own bytes. `RxJust` uses `≤`. -/
+theorem strict_buffer_bound_fails :
+    ∃ (s : State) (m : CanMsg), RxJust s ∧ (s.processRx m).1.rxState = .waitCf ∧
+      ¬ (s.processRx m).1.rxBuf.length < (s.processRx m).1.rxFrameLen :=
+  ⟨State.init {} ⟨default, default⟩, { id := 0, ext := false, data := [0x10, 0x03, 1, 2, 3, 4, 5, 6] },
+    RxJust.init _ _, by decide, by decide⟩
+
+/-! ## 3b. Deliveries are justified by the traffic — whole runs -/
+
+/-- the PDU carried by a frame for a receiver whose address prefix has `pre` bytes -/
+def pduOf (pre : Nat) (m : CanMsg) : Option Pdu := (decode m.data pre).map (·.pdu)
+
+/-- `m` starts a new message: a First Frame, or a well-formed Single Frame (a Single Frame in a CAN FD
+    frame of more than 8 bytes must use the escape sequence) -/
+def startsMessage (pre : Nat) (m : CanMsg) : Bool :=
+  match decode m.data pre with
+  | none => false
+  | some d =>
+    match d.pdu with
+    | .ff _ _ _ => true
+    | .sf _ _ esc => d.canDl ≤ 8 || esc
+    | _ => false
+
+/-- `Chain pre ms sn acc sn' acc'`: the frames `ms` contain no new message; those of its Consecutive
+    Frames that are used carry the consecutive sequence numbers after `sn` (ending at `sn'`), and
+    appending their data to `acc` gives `acc'`. (Frames that are neither used nor a new message — Flow
+    Control frames, Consecutive Frames dropped for an RX_DL change — are skipped.) -/
+inductive Chain (pre : Nat) : List CanMsg → Nat → Bytes → Nat → Bytes → Prop
+  | nil (sn : Nat) (acc : Bytes) : Chain pre [] sn acc sn acc
+  | use (m : CanMsg) (ms : List CanMsg) (data : Bytes) (sn : Nat) (acc : Bytes) (sn' : Nat) (acc' : Bytes) :
+      pduOf pre m = some (.cf ((sn + 1) % 16) data) →
+      Chain pre ms ((sn + 1) % 16) (acc ++ data) sn' acc' → Chain pre (m :: ms) sn acc sn' acc'
+  | skip (m : CanMsg) (ms : List CanMsg) (sn : Nat) (acc : Bytes) (sn' : Nat) (acc' : Bytes) :
+      startsMessage pre m = false → Chain pre ms sn acc sn' acc' → Chain pre (m :: ms) sn acc sn' acc'
+
+/-- **Reference predicate** (from the property text). Payload `p` is justified by the frames received so
+    far (`frames`, oldest first, the last one being the frame that triggered the delivery) when
+    * the last frame is a Single Frame and `p` is its data, or
+    * some earlier frame `ff` is a First Frame announcing `len ≤ max_frame_size` bytes; between it and
+      the last frame no frame starts a new message and the Consecutive Frames used are in sequence
+      (`Chain`); the last frame is the next in-sequence Consecutive Frame; and `p` is the First Frame data
+      followed by the data of those Consecutive Frames, cut to `len`, with exactly `len` bytes. -/
+def Justified (pre maxLen : Nat) (frames : List CanMsg) (p : Bytes) : Prop :=
+  (∃ init m l esc, frames = init ++ [m] ∧ pduOf pre m = some (.sf l p esc)) ∨
+  (∃ init ff mid m len data esc sn acc cfdata,
+    frames = init ++ ff :: (mid ++ [m]) ∧ pduOf pre ff = some (.ff len data esc) ∧ len ≤ maxLen ∧
+    Chain pre mid 0 data sn acc ∧ pduOf pre m = some (.cf ((sn + 1) % 16) cfdata) ∧
+    p = (acc ++ cfdata).take len ∧ p.length = len)
+
+/-- receive-side history of a schedule: the frames given to `_process_rx`, oldest first -/
+def framesOf : List QStep → List CanMsg
+  | [] => []
+  | .frame m :: rest => m :: framesOf rest
+  | _ :: rest => framesOf rest
+
+/-- state after a schedule -/
+def after (s : State) (steps : List QStep) : State := (qRun s steps).1
+
+/-! helper lemmas for the trace theorem -/
+
+theorem Chain.snoc_use {pre : Nat} {ms : List CanMsg} {sn : Nat} {acc : Bytes} {sn' : Nat} {acc' : Bytes}
+    (h : Chain pre ms sn acc sn' acc') (m : CanMsg) (data : Bytes)
+    (hm : pduOf pre m = some (.cf ((sn' + 1) % 16) data)) :
+    Chain pre (ms ++ [m]) sn acc ((sn' + 1) % 16) (acc' ++ data) := by
+  induction h with
+  | nil sn acc => exact .use m [] data sn acc _ _ hm (.nil _ _)
+  | use m' ms d sn acc sn' acc' h1 _ ih => exact .use m' _ d sn acc _ _ h1 (ih hm)
+  | skip m' ms sn acc sn' acc' h1 _ ih => exact .skip m' _ sn acc _ _ h1 (ih hm)
+
+theorem Chain.snoc_skip {pre : Nat} {ms : List CanMsg} {sn : Nat} {acc : Bytes} {sn' : Nat} {acc' : Bytes}
+    (h : Chain pre ms sn acc sn' acc') (m : CanMsg) (hm : startsMessage pre m = false) :
+    Chain pre (ms ++ [m]) sn acc sn' acc' := by
+  induction h with
+  | nil sn acc => exact .skip m [] sn acc _ _ hm (.nil _ _)
+  | use m' ms d sn acc sn' acc' h1 _ ih => exact .use m' _ d sn acc _ _ h1 ih
+  | skip m' ms sn acc sn' acc' h1 _ ih => exact .skip m' _ sn acc _ _ h1 ih
+
+/-- history invariant: while a reception is in progress, the buffer is what the frames since the First
+    Frame justify -/
+def Hist (frames : List CanMsg) (s : State) : Prop :=
+  s.rxState = .waitCf →
+    ∃ init ff mid len data esc acc,
+      frames = init ++ ff :: mid ∧ pduOf s.addr.rx.rxPrefixSize ff = some (.ff len data esc) ∧
+      len ≤ s.cfg.maxFrameSize ∧ s.rxFrameLen = len ∧
+      Chain s.addr.rx.rxPrefixSize mid 0 data s.lastSeq acc ∧ s.rxBuf = acc.take len
+
+theorem pduOf_of_decode {pre : Nat} {m : CanMsg} {d : Decoded} (h : decode m.data pre = some d) :
+    pduOf pre m = some d.pdu := by simp [pduOf, h]
+
+theorem startsMessage_of_notNew {s : State} {m : CanMsg} (h : NotNewMsg s m) :
+    startsMessage s.addr.rx.rxPrefixSize m = false := by
+  unfold startsMessage
+  split
+  · rfl
+  · next d hd =>
+    obtain ⟨h1, h2⟩ := h d hd
+    split
+    · next hp => exact absurd hp (h1 _ _ _)
+    · next hp =>
+      obtain ⟨h8, he⟩ := h2 _ _ _ hp
+      simp [he]; omega
+    · rfl
+
+theorem ff_data_le {pre : Nat} {m : CanMsg} {d : Decoded} {len : Nat} {data : Bytes} {esc : Bool}
+    (hd : decode m.data pre = some d) (hp : d.pdu = .ff len data esc) : data.length ≤ len := by
+  unfold decode at hd
+  split at hd
+  · simp at hd
+  · split at hd
+    · simp at hd
+    · next p hb =>
+      simp only [Option.some.injEq] at hd
+      subst hd
+      simp only at hp
+      subst hp
+      exact Safe.ff_data_len _ _ _ _ hb
+
+/-- one received frame keeps the history invariant -/
+theorem Hist.frame {frames : List CanMsg} {s : State} (h : Hist frames s) (m : CanMsg) :
+    Hist (frames ++ [m]) (s.processRx m).1 := by
+  have hf := RxFrame.processRx s m
+  intro hw'
+  rw [hf.addr, hf.cfg]
+  have hnew : ∀ d len data esc, decode m.data s.addr.rx.rxPrefixSize = some d → d.pdu = .ff len data esc →
+      (s.processRx m).1.rxBuf = data → (s.processRx m).1.rxFrameLen = len → (s.processRx m).1.lastSeq = 0 →
+      len ≤ s.cfg.maxFrameSize →
+      ∃ init ff mid len data esc acc,
+        frames ++ [m] = init ++ ff :: mid ∧ pduOf s.addr.rx.rxPrefixSize ff = some (.ff len data esc) ∧
+        len ≤ s.cfg.maxFrameSize ∧ (s.processRx m).1.rxFrameLen = len ∧
+        Chain s.addr.rx.rxPrefixSize mid 0 data (s.processRx m).1.lastSeq acc ∧
+        (s.processRx m).1.rxBuf = acc.take len := by
+    intro d len data esc hd hp h2 h3 h4 h5
+    refine ⟨frames, m, [], len, data, esc, data, rfl, ?_, h5, h3, ?_, ?_⟩
+    · rw [pduOf_of_decode hd, hp]
+    · rw [h4]; exact .nil _ _
+    · rw [h2, List.take_of_length_le (ff_data_le hd hp)]
+  cases hst : s.rxState with
+  | idle =>
+    rcases rxIdle_buf s m hst with h' | ⟨d, len, data, esc, hd, hp, h1, h2, h3, h4, h5⟩
+    · rw [h'] at hw'; cases hw'
+    · exact hnew d len data esc hd hp h2 h3 h4 h5
+  | waitCf =>
+    obtain ⟨init, ff, mid, len, data, esc, acc, e1, e2, e3, e4, e5, e6⟩ := h hst
+    rcases processRx_buf s hst m with ⟨⟨h1, h2, h3, h4⟩, hn⟩ | h' | ⟨d, cfd, hd, hp, h1, h2, h3, h4⟩ |
+        ⟨d, len', data', esc', hd, hp, h1, h2, h3, h4, h5⟩
+    · refine ⟨init, ff, mid ++ [m], len, data, esc, acc, by simp [e1], e2, e3, h3.trans e4, ?_, h2.trans e6⟩
+      rw [h4]; exact e5.snoc_skip m (startsMessage_of_notNew hn)
+    · rw [h'.1] at hw'; cases hw'
+    · refine ⟨init, ff, mid ++ [m], len, data, esc, acc ++ cfd, by simp [e1], e2, e3, h3.trans e4, ?_, ?_⟩
+      · rw [h4]; exact e5.snoc_use m cfd (by rw [pduOf_of_decode hd, hp])
+      · rw [h2, e6, e4, List.take_append, List.length_take]
+        congr 2
+        omega
+    · exact hnew d len' data' esc' hd hp h2 h3 h4 h5
+
+theorem Hist.of_idle (frames : List CanMsg) {s : State} (h : s.rxState = .idle) : Hist frames s := by
+  intro hw; rw [h] at hw; cases hw
+
+theorem Hist.tx {frames : List CanMsg} {s : State} (h : Hist frames s) : Hist frames s.processTx.1 := by
+  have f := TxFrame.processTx s
+  intro hw
+  rw [f.addr, f.cfg, f.rxFrameLen, f.lastSeq, f.rxBuf]
+  exact h (f.rxState ▸ hw)
+
+theorem Hist.timeout {frames : List CanMsg} {s : State} (h : Hist frames s) :
+    Hist frames s.checkTimeoutsRx := by
+  unfold checkTimeoutsRx
+  split
+  · exact Hist.of_idle _ rfl
+  · exact h
+
+theorem framesOf_append (a b : List QStep) : framesOf (a ++ b) = framesOf a ++ framesOf b := by
+  induction a with
+  | nil => rfl
+  | cons x rest ih => cases x <;> simp [framesOf, ih]
+
+theorem after_append (s : State) (a b : List QStep) : after s (a ++ b) = after (after s a) b := by
+  induction a generalizing s with
+  | nil => rfl
+  | cons x rest ih => cases x <;> simp [after, qRun] <;> exact ih _
+
+theorem after_cfg_addr (steps : List QStep) : ∀ (s : State),
+    (after s steps).cfg = s.cfg ∧ (after s steps).addr = s.addr := by
+  induction steps with
+  | nil => intro s; exact ⟨rfl, rfl⟩
+  | cons x rest ih =>
+    intro s
+    cases x with
+    | frame m =>
+      have f := RxFrame.processRx s m
+      have := ih (s.processRx m).1
+      exact ⟨this.1.trans f.cfg, this.2.trans f.addr⟩
+    | tx =>
+      have f := TxFrame.processTx s
+      have := ih s.processTx.1
+      exact ⟨this.1.trans f.cfg, this.2.trans f.addr⟩
+    | timeout =>
+      have f := RxFrame.checkTimeoutsRx s
+      have := ih s.checkTimeoutsRx
+      exact ⟨this.1.trans f.cfg, this.2.trans f.addr⟩
+
+theorem Hist.run (steps : List QStep) : ∀ (frames : List CanMsg) (s : State), Hist frames s →
+    Hist (frames ++ framesOf steps) (after s steps) := by
+  induction steps with
+  | nil => intro frames s h; simpa [framesOf, after, qRun] using h
+  | cons x rest ih =>
+    intro frames s h
+    cases x with
+    | frame m =>
+      have := ih _ _ (h.frame m)
+      simpa [framesOf, after, qRun] using this
+    | tx => exact ih _ _ h.tx
+    | timeout => exact ih _ _ h.timeout
+
+/-- **Deliveries are justified by the traffic (whole runs).** Start from a state with no reception in
+    progress (e.g. the initial state), let the layer go through ANY interleaving of received frames,
+    `_process_tx` calls and timeout checks, then receive one more frame `m`. If that frame delivers a
+    payload `p` (to the rx queue that `recv()` pops), then `p` is justified by the frames received so
+    far in the sense of the reference predicate `Justified`. -/
+theorem justified (s : State) (hi : s.rxState = .idle) (steps : List QStep) (m : CanMsg) (p : Bytes)
+    (hd : Delivered (after s steps) ((after s steps).processRx m).1 p) :
+    Justified s.addr.rx.rxPrefixSize s.cfg.maxFrameSize (framesOf steps ++ [m]) p := by
+  have hH : Hist (framesOf steps) (after s steps) := by
+    simpa using Hist.run steps [] s (Hist.of_idle [] hi)
+  obtain ⟨hc, ha⟩ := after_cfg_addr steps s
+  generalize after s steps = sk at *
+  have huniq : ∀ p', Delivered sk (sk.processRx m).1 p' → p = p' := by
+    intro p' h'
+    have := hd.1.symm.trans h'.1
+    simpa using this
+  rcases processRx_deliv sk m with h0 | ⟨d, l, p0, esc, hdec, hp, hdel⟩ | ⟨d, cfd, hdec, hp, hw, hlen, hdel⟩
+  · have := hd.1.symm.trans h0.1
+    simp at this
+  · have := huniq _ hdel
+    subst this
+    exact .inl ⟨framesOf steps, m, l, esc, rfl, by rw [← ha, pduOf_of_decode hdec, hp]⟩
+  · have := huniq _ hdel
+    subst this
+    obtain ⟨init, ff, mid, len, data, esc, acc, e1, e2, e3, e4, e5, e6⟩ := hH hw
+    rw [ha] at e2 e5
+    rw [hc] at e3
+    have hp' : sk.rxBuf ++ List.take (sk.rxFrameLen - sk.rxBuf.length) cfd = (acc ++ cfd).take len := by
+      rw [e6, e4, List.take_append, List.length_take]
+      congr 2
+      omega
+    refine .inr ⟨init, ff, mid, m, len, data, esc, sk.lastSeq, acc, cfd, by simp [e1], e2, e3, e5,
+      by rw [← ha, pduOf_of_decode hdec, hp], hp', ?_⟩
+    have h1 : ((acc ++ cfd).take len).length ≤ len := by simp [List.length_take]; omega
+    rw [hp', e4] at hlen
+    rw [hp']
+    omega
+
+/-! ## 4. Emission while the user sends nothing -/
+
+/-- The quiet-sender condition holds initially and is kept by every step of `process()`. -/
+theorem quiet_invariant :
+    (∀ c a, Quiet (State.init c a)) ∧
+    (∀ s, Quiet s → (∀ m, Quiet (s.processRx m).1) ∧ Quiet s.checkTimeoutsRx ∧ Quiet s.processTx.1 ∧
+      ∀ doRx doTx, Quiet (s.process doRx doTx).1) :=
+  ⟨Quiet.init, fun s h => ⟨fun m => h.of_rxFrame (RxFrame.processRx s m),
+    h.of_rxFrame (RxFrame.checkTimeoutsRx s), h.processTx.1, fun doRx doTx => (h.process doRx doTx).1⟩⟩
+
+/-- **One frame per request.** While the user sends nothing, `_process_tx` outputs a frame only if a
+    Flow Control was requested (`pending_flow_control_tx`), the layer is not in listen mode, and the
+    frame is exactly `_make_flow_control` of the stored status; and the request is consumed
+    (`pendingFc` is false afterwards — that part holds in every state). In particular a received
+    Flow Control frame (`lastFc`) never makes an idle sender emit anything. -/
+theorem quiet_processTx (s : State) (h : Quiet s) :
+    (∀ msg, s.processTx.2.1 = some msg →
+      s.pendingFc = true ∧ s.cfg.listen = false ∧
+        ∃ st, s.pendingFcStatus = some st ∧ makeFlowControl s.cfg s.addr st = some msg) ∧
+    s.processTx.1.pendingFc = false :=
+  ⟨h.processTx.2, processTx_clears s⟩
+
+/-- no request, no frame -/
+theorem quiet_silent (s : State) (h : Quiet s) (hp : s.pendingFc = false) : s.processTx.2.1 = none := by
+  cases ho : s.processTx.2.1 with
+  | none => rfl
+  | some msg => have := (h.processTx.2 msg ho).1; simp [hp] at this
+
+/-- A Flow Control is requested only by a First Frame or by a Consecutive Frame that completes a
+    block (`requestsFc`), and with status ContinueToSend (0) or Overflow (2) only. -/
+theorem fc_request_origin (s : State) (m : CanMsg) :
+    ((s.processRx m).1.pendingFc = true → s.pendingFc = true ∨ requestsFc s m = true) ∧
+    ((s.processRx m).1.pendingFcStatus = s.pendingFcStatus ∨
+      (s.processRx m).1.pendingFcStatus = some 0 ∨ (s.processRx m).1.pendingFcStatus = some 2) :=
+  ⟨processRx_pend' s m, processRx_pendStatus s m⟩
+
+/-- **Counting.** Along any interleaving of received frames, `_process_tx` calls and timeout checks of a
+    quiet layer: (frames emitted) + (request still pending) ≤ (frames that requested a Flow
+    Control) + (request pending at the start). From the initial state: emitted ≤ requests. -/
+theorem fc_count (s : State) (h : Quiet s) (steps : List QStep) :
+    (qRun s steps).2.1 + pendCount (qRun s steps).1 ≤ (qRun s steps).2.2 + pendCount s :=
+  qRun_count steps s h
+
+theorem fc_count_init (c : Cfg) (a : Addr) (steps : List QStep) :
+    (qRun (State.init c a) steps).2.1 ≤ (qRun (State.init c a) steps).2.2 := by
+  have := fc_count _ (Quiet.init c a) steps
+  have h0 : pendCount (State.init c a) = 0 := rfl
+  omega
+
+/-- **On the wire.** While the user sends nothing, every frame `process()` hands to `txfn` is a Flow
+    Control frame of this layer. -/
+theorem quiet_process_only_fc (s : State) (h : Quiet s) (doRx doTx : Bool) (t : Nat) (m : CanMsg)
+    (hm : Ev.tx t m ∈ (s.process doRx doTx).1.log) : Ev.tx t m ∈ s.log ∨ IsFc s.cfg s.addr m :=
+  (h.process doRx doTx).2 t m hm
+
+/-! ## Non-vacuity -/
+
+def exHalf : Half :=
+  { mode := .n11, txid := some 0x123, rxid := some 0x456, ta := none, sa := none, ae := none, physId := 0,
+    funcId := 0, rxOnly := false, txOnly := false }
+def exAddr : Addr := ⟨exHalf, exHalf⟩
+def exFf : CanMsg := { id := 0x456, ext := false, data := [0x10, 0x0A, 1, 2, 3, 4, 5, 6] }
+def exCf : CanMsg := { id := 0x456, ext := false, data := [0x21, 7, 8, 9, 10, 0xCC, 0xCC, 0xCC] }
+def exSf : CanMsg := { id := 0x456, ext := false, data := [0x03, 7, 8, 9] }
+def exJunk : CanMsg := { id := 0x456, ext := false, data := [0xF0, 1] }
+/-- the state after the First Frame -/
+def exMid : State := ((State.init {} exAddr).processRx exFf).1
+
+example : ({} : Cfg).valid = true := by decide
+example : Safe (State.init {} exAddr) := safe_init _ _ (by decide)
+example : Safe exMid := (safe_init _ _ (by decide)).processRx _
+example : exMid.rxState = .waitCf ∧ exMid.pendingFc = true ∧ RxJust exMid ∧ Quiet exMid :=
+  ⟨by decide, by decide, (RxJust.init _ _).processRx _, (Quiet.init _ _).of_rxFrame (RxFrame.processRx _ _)⟩
+/-- the Consecutive Frame completes the message: delivered, and justified (second disjunct) -/
+example : Delivered exMid (exMid.processRx exCf).1 [1, 2, 3, 4, 5, 6, 7, 8, 9, 10] := by
+  constructor <;> decide
+example : JustifiedBy exMid exCf [1, 2, 3, 4, 5, 6, 7, 8, 9, 10] := by
+  refine .inr ⟨by decide, [7, 8, 9, 10, 0xCC, 0xCC, 0xCC], 8, 8, by decide, by decide, by decide, by decide⟩
+/-- a Single Frame is delivered and justified (first disjunct) -/
+example : Delivered (State.init {} exAddr) ((State.init {} exAddr).processRx exSf).1 [7, 8, 9] := by
+  constructor <;> decide
+example : JustifiedBy (State.init {} exAddr) exSf [7, 8, 9] := .inl ⟨3, false, 4, 8, by decide⟩
+/-- garbage on the bus: an error event, no delivery, no exception -/
+example : (exMid.processRx exJunk).1.log.head? = some (.err 0 .InvalidCanData) ∧
+    NoDelivery exMid (exMid.processRx exJunk).1 ∧ (exMid.processRx exJunk).1.exc = none := by
+  refine ⟨by decide, ⟨by decide, by decide⟩, by decide⟩
+/-- the quiet layer answers the First Frame with exactly one Flow Control frame -/
+example : exMid.processTx.2.1 = some { id := 0x123, ext := false, data := [0x30, 8, 0], dlc := 3 } := by
+  decide
+/-- the whole-run theorem applies to the run "First Frame, Flow Control sent, Consecutive Frame" -/
+example : Justified 0 4095 [exFf, exCf] [1, 2, 3, 4, 5, 6, 7, 8, 9, 10] :=
+  justified (State.init {} exAddr) rfl [.frame exFf, .tx] exCf _ (by constructor <;> decide)
+/-- and `Justified` for it unfolds to the expected witness: First Frame data, then the Consecutive Frame -/
+example : Justified 0 4095 [exFf, exCf] [1, 2, 3, 4, 5, 6, 7, 8, 9, 10] :=
+  .inr ⟨[], exFf, [], exCf, 10, [1, 2, 3, 4, 5, 6], false, 0, [1, 2, 3, 4, 5, 6], [7, 8, 9, 10, 0xCC, 0xCC, 0xCC],
+    rfl, by decide, by decide, .nil _ _, by decide, by decide, by decide⟩
+example : requestsFc (State.init {} exAddr) exFf = true := by decide
+example : (qRun (State.init {} exAddr) [.frame exFf, .tx, .tx, .frame exCf, .tx]).2 = (1, 1) := by decide
+example : (({ State.init {} exAddr with inbox := [(0, exFf), (3, exJunk), (5, exCf)] } : State).process true
+    true).1.exc = none := by decide
+
 end Isotp.C05
+
+#print axioms Isotp.C05.processRx_no_raise
+#print axioms Isotp.C05.safe_init
+#print axioms Isotp.C05.prefix_le_one
+#print axioms Isotp.C05.makeTxMsg_never_raises
+#print axioms Isotp.C05.safe_steps
+#print axioms Isotp.C05.processTx_no_raise
+#print axioms Isotp.C05.process_no_raise
+#print axioms Isotp.C05.loops_no_raise
+#print axioms Isotp.C05.receiver_never_raises
+#print axioms Isotp.C05.log_prepend
+#print axioms Isotp.C05.internal_kinds
+#print axioms Isotp.C05.rxJust_invariant
+#print axioms Isotp.C05.delivery_justified
+#print axioms Isotp.C05.rxQueue_other_steps
+#print axioms Isotp.C05.buffer_step
+#print axioms Isotp.C05.strict_buffer_bound_fails
+#print axioms Isotp.C05.justified
+#print axioms Isotp.C05.quiet_invariant
+#print axioms Isotp.C05.quiet_processTx
+#print axioms Isotp.C05.quiet_silent
+#print axioms Isotp.C05.fc_request_origin
+#print axioms Isotp.C05.fc_count
+#print axioms Isotp.C05.fc_count_init
+#print axioms Isotp.C05.quiet_process_only_fc
